@@ -62,6 +62,16 @@ func genSpec(r *rand.Rand, name string) adapt.TableSpec {
 			s.Indexes = append(s.Indexes, adapt.IndexSpec{Name: "gsi4", Hash: "g", Range: "h", RangeT: s.HashT})
 		}
 	}
+	// declared projections: minidyn records and reports them and reads through an index return whole items
+	// (its documented simplification), identically through either SDK adapter
+	for i := range s.Indexes {
+		switch r.Intn(5) {
+		case 0:
+			s.Indexes[i].Proj = "KEYS_ONLY"
+		case 1:
+			s.Indexes[i].Proj, s.Indexes[i].NonKey = "INCLUDE", []string{"v"}
+		}
+	}
 	// the order in which a request lists its indexes carries no meaning
 	r.Shuffle(len(s.Indexes), func(i, j int) { s.Indexes[i], s.Indexes[j] = s.Indexes[j], s.Indexes[i] })
 	return s
@@ -170,6 +180,12 @@ func genOp(r *rand.Rand, m *model.Client, w opWeights, salt int) adapt.Op {
 					for _, cand := range []adapt.IndexSpec{{Name: "gsi1", Hash: "g"}, {Name: "gsi2", Hash: "g", Range: "s"}, {Name: "gsi3", Hash: "s"}} {
 						if !have[cand.Name] {
 							c := cand
+							if r.Intn(4) == 0 {
+								c.Proj = mon.Pick(r, []string{"KEYS_ONLY", "INCLUDE"})
+								if c.Proj == "INCLUDE" {
+									c.NonKey = []string{"v", "h"}
+								}
+							}
 							return adapt.Op{Kind: adapt.OpUpdateTable, Table: name, Chg: []adapt.IndexChange{{Create: &c}}, NoDefs: r.Intn(3) == 0}
 						}
 					}
@@ -256,6 +272,17 @@ func genOp(r *rand.Rand, m *model.Client, w opWeights, salt int) adapt.Op {
 		if exists && len(t.Spec.Indexes) > 0 && r.Intn(2) == 0 {
 			index = mon.Pick(r, t.Spec.Indexes).Name
 		}
+		if exists && r.Intn(14) == 0 {
+			// an index the table does not have (never had, or had until an UpdateTable deleted it)
+			for _, cand := range []string{"gsi1", "gsi2", "gsi3", "lsi1", "gsi4", "gsi5", "nosuchindex"} {
+				if _, ok := t.Index(cand); !ok && r.Intn(2) == 0 {
+					if r.Intn(2) == 0 {
+						return scanOp(name, cand, nil, val.Item{}, rrCanon)
+					}
+					return queryOp(name, cand, keyCondEq("g", ":h"), nil, val.Item{":h": val.Str("g1")}, false, rrCanon)
+				}
+			}
+		}
 		if r.Intn(2) == 0 {
 			values := val.Item{}
 			var f *refmodel.Cond
@@ -311,6 +338,15 @@ func genOp(r *rand.Rand, m *model.Client, w opWeights, salt int) adapt.Op {
 				}
 				seen[tn+key.Canon()] = true
 				gets = append(gets, adapt.BatchEntry{Table: tn, Del: key})
+			}
+			if r.Intn(10) == 0 {
+				// a table of the name pool that does not exist at this point (never created, or deleted): the call fails
+				for _, n := range genTableNames {
+					if _, ok := m.Tables[n]; !ok {
+						gets = append(gets, adapt.BatchEntry{Table: n, Del: val.Item{"h": val.Str("p")}})
+						break
+					}
+				}
 			}
 			return adapt.Op{Kind: adapt.OpBatchGet, Gets: gets}
 		}
